@@ -270,6 +270,10 @@ def strategy(draw):
                         e["args"] = e["args"] + [extra]
                 if draw(st.integers(0, 11)) == 0:
                     e["args"] = e["args"] + ["nobody"]
+                # some parameters of the factory carry a default of their own: the call's value must still arrive
+                e["dargs"] = [a for a in e["args"] if a not in ("nobody", "OLD") and draw(st.integers(0, 2)) == 0]
+            if d["t"] in ("require", "ensure") and draw(st.integers(0, 3)) == 0:
+                d["dargs"] = [a for a in d.get("args", []) if a != "OLD" and draw(st.booleans())]
     return case
 
 
